@@ -6,7 +6,13 @@ use crate::{
     },
     config, Result,
 };
+#[cfg(not(sentinel_verif))]
 use std::sync::{
+    atomic::{AtomicU32, Ordering},
+    Arc,
+};
+#[cfg(sentinel_verif)]
+use sentinel_verif_rt::sync::{
     atomic::{AtomicU32, Ordering},
     Arc,
 };
